@@ -29,8 +29,8 @@ MANIFEST = {
 
 PLAN = {
     # tier: (mc cfgs, (tlc scenarios, depth), seeded scenarios, shards)
-    "quick": (["MC_EvmWatcher_quick.cfg"], (120, 36), 260, 4),
-    "thorough": (["MC_EvmWatcher_thorough.cfg"], (1500, 44), 5000, 8),
+    "quick": (["MC_EvmWatcher_quick.cfg", "MC_EvmWatcher_reobs_quick.cfg"], (200, 36), 800, 4),
+    "thorough": (["MC_EvmWatcher_thorough.cfg", "MC_EvmWatcher_reobs_thorough.cfg", "MC_EvmWatcher_mixed_thorough.cfg"], (2500, 44), 9500, 8),
 }
 
 ASSUME = [
@@ -92,7 +92,7 @@ def run(prop, tier, replay=None):
     lines = [ln for ln in lines if ln["t"] not in bad]
     print("ran %d chain histories (%d recorded lines) on the real Watcher.Run in %.1fs (build %.1fs); %d discarded (slow/timeout)"
           % (len(scenarios), len(lines), wall, bwall, len(bad)))
-    rejs, r = fe.validate(work, lines)
+    rejs, r = fe.validate(work, lines, parallel=shards)
     print("trace validation: %d states, %.1fs, %d rejected line(s)" % (r["distinct"], r["wall_s"], len(rejs)))
 
     byn = {(ln["t"], ln["n"]): i for i, ln in enumerate(lines)}
